@@ -58,7 +58,13 @@ def asym_custom(L):
     return 0.3 + 0.7 * (n + 1) / L + 0.1 * np.cos(0.9 * n)
 
 
-WINDOWS = {"rect": rect, "ramp": ramp, "hann": hann_sym, "asym": asym_custom}
+def gapneg(L):
+    """Real window with exact zeros in the interior and negative taps (the property
+    quantifies over *all* real windows): 1, 0, -0.5, 2, 1, 0, -0.5, 2, ..."""
+    return np.array([(1.0, 0.0, -0.5, 2.0)[n % 4] for n in range(L)], dtype=np.float64)
+
+
+WINDOWS = {"rect": rect, "ramp": ramp, "hann": hann_sym, "asym": asym_custom, "gapneg": gapneg}
 
 
 def build(name, L, psll=200.0):
